@@ -180,6 +180,9 @@ func coqNode(n Node) string {
 	case "nat":
 		switch n.K {
 		case "sort", "getter":
+			if n.K == "getter" {
+				return fmt.Sprintf("(INat NGet (mks [%s]))", coqCode(n.B))
+			}
 			return fmt.Sprintf("(INat NCb (mks [%s]))", coqCode(n.B))
 		case "foreach":
 			return fmt.Sprintf("(INat NCb (mks (rep %d %s)))", n.N, coqCode(n.B))
@@ -463,9 +466,10 @@ func runCase(w *vh.Writer, c Case) obs {
 // generation
 
 type gen struct {
-	r      *vh.Rng
-	serial int
-	budget int
+	r       *vh.Rng
+	serial  int
+	budget  int
+	noThrow int // > 0 inside the finally block of a try that has a catch (a C08 defect of goja lives there)
 }
 
 func (g *gen) id() int { g.serial++; return g.serial }
@@ -494,7 +498,7 @@ func (g *gen) node(depth int, inTry bool) Node {
 		case 1:
 			return Node{T: "probe"}
 		default:
-			if inTry {
+			if inTry && g.noThrow == 0 {
 				return Node{T: "throw"}
 			}
 			return Node{T: "ev", Id: g.id()}
@@ -507,7 +511,7 @@ func (g *gen) node(depth int, inTry bool) Node {
 	case 1:
 		return Node{T: "probe"}
 	case 2:
-		if inTry {
+		if inTry && g.noThrow == 0 {
 			return Node{T: "throw"}
 		}
 		return Node{T: "probe"}
@@ -528,7 +532,13 @@ func (g *gen) node(depth int, inTry bool) Node {
 			n.C = g.body(d, inTry || n.HF)
 		}
 		if n.HF {
+			if n.HC {
+				g.noThrow++
+			}
 			n.F = g.body(d, inTry)
+			if n.HC {
+				g.noThrow--
+			}
 		}
 		return n
 	case 5:
@@ -585,7 +595,11 @@ func main() {
 			o := runCase(w, Case{Entry: entry, Mode: 0, K: 0, Ops: prog})
 			made++
 			// every probe position
-			for k := 1; k <= o.Probes && k <= 40 && made < m.N; k++ {
+			step := 1
+			if o.Probes > 14 {
+				step = 1 + g.r.Intn(3) // long runs: a random stride, still hitting early and late positions
+			}
+			for k := 1 + g.r.Intn(step); k <= o.Probes && k <= 60 && made < m.N; k += step {
 				runCase(w, Case{Entry: entry, Mode: 0, K: k, Ops: prog})
 				made++
 				if g.r.Chance(25) && made < m.N {
